@@ -171,9 +171,10 @@ Proof. split; [vm_compute; reflexivity|]. split; [vm_compute; reflexivity|]. pro
 Theorem C14_parse_full_nosemi : forall b, wfp_block b = true -> csf_block b = true ->
   parse_from l_grammar L_EXP (render_block b) = PFuel \/ parse_ok b.
 Proof. exact parse_full_nosemi. Qed.
-(** C14_parse_total (parse_ok without the fuel disjunct) is NOT proved: the calculus speaks of "all sufficiently
-    large fuel" and carries no explicit bound, so adequacy of peg_fuel = 64 + 24 * length is open. What is
-    proved is that the fuel is the ONLY residual: on the domain, parse_ok holds exactly when the computed fuel
+(** (Written before the generic termination theorem of Proofs/PegFuel.v existed; C14_parse_total, without the fuel
+    disjunct, is proved further down, after peg_fuel was raised to 128 + 96 * length.)  The calculus of this file
+    speaks of "all sufficiently large fuel" and carries no explicit bound. What is proved here is that the fuel is
+    the ONLY residual: on the domain, parse_ok holds exactly when the computed fuel
     does not run out (so one evaluation of parse_from that is not PFuel -- which L1a / L1b perform on every
     generated script -- is a complete verdict). *)
 Theorem C14_parse_total_partial : forall b, wfp_block b = true -> csf_block b = true ->
@@ -428,7 +429,7 @@ Proof. exact parse_total_at_bound. Qed.
 Check C14_parse_total_at_bound : forall b, wfp_block b = true -> csf_block b = true ->
   forall fuel, (peg_bound l_grammar (List.length (render_block b)) <= fuel)%nat -> parse_ok_at fuel b.
 
-(** C14_parse_total proper (parse_ok, i.e. at peg_fuel) is NOT proved; what is proved: *)
+(** (Before peg_fuel was raised above the bound: the gap statement. C14_parse_total itself follows below.) *)
 Theorem C14_parse_total_partial_gap : forall b, wfp_block b = true -> csf_block b = true ->
   parse_ok b \/ (peg_fuel (render_block b) < peg_bound l_grammar (List.length (render_block b)))%nat.
 Proof. exact parse_total_or_gap. Qed.
